@@ -68,7 +68,7 @@ theorem mac_follows_cipher {isClient : Bool} {loc : LocalAlgs} {peer : KexInit} 
       all_goals
         simp only [Except.ok.injEq] at h
         subst h
-        simp_all [optErr_ok]
+        simp_all [chooseOrErr_ok]
 
 /-- parsing a KEXINIT built by `_send_kexinit` returns exactly the lists that were encoded (names without
     commas, no empty name, 16-byte cookie) -/
